@@ -800,6 +800,16 @@ Proof.
   destruct ss, sf, (jis_success r); cbn; intuition discriminate.
 Qed.
 
+Lemma failure_counts_aux evs rep n :
+  junit_report evs = Some rep ->
+  count_if is_nonsuccess (test_cases rep) = failed_count (run_stats n evs)
+  /\ count_if is_nonsuccess (script_cases rep) = failed_script_count (run_stats n evs).
+Proof.
+  intros H. split.
+  - rewrite <- cnt_test_cases. exact (agree_failed evs rep n H).
+  - rewrite <- cnt_script_cases. exact (agree_failed_scripts evs rep n H).
+Qed.
+
 (* C17_consumers_agree *)
 Lemma attached_spec l : forall s,
   attached s l = true ->
@@ -820,48 +830,373 @@ Qed.
 Lemma stats_fold_app s a b : stats_fold s (a ++ b) = stats_fold (stats_fold s a) b.
 Proof. unfold stats_fold. apply fold_left_app. Qed.
 
-Lemma consumers_agree n (l : list sevent) final rep :
-  attached (initial_stats n) (l ++ [(JOther, Some final)]) = true ->
-  junit_report (map fst l) = Some rep ->
-  let evs := map fst l in
-  final = run_stats n evs
-  /\ summary_counts final = summary_counts (run_stats n evs)
-  /\ len (test_cases rep) = finished_count final
-  /\ count_if is_nonsuccess (test_cases rep) = failed_count final
-  /\ count_if is_flaky_case (test_cases rep) = flaky final
-  /\ len (script_cases rep) = ss_finished_count final
-  /\ count_if is_nonsuccess (script_cases rep) = failed_script_count final
-  /\ (has_failures final = false <-> count_if is_nonsuccess (all_cases rep) = 0)
-  /\ part_inv final.
+(* ----------------------------------------------------------------- tallies of final results *)
+
+(* The specification side of "the three consumers agree": plain counts over the stream of the
+   per-test FINAL results (the last attempt of each finished test) and of the setup-script
+   results -- no fold, no testcase, no statistics record. *)
+Definition final_of (e : jevent) : option jattempt :=
+  match e with JTestFinished _ _ f r _ _ => Some (last_attempt f r) | _ => None end.
+(* a finished test whose final attempt satisfies p *)
+Definition test_where (p : jattempt -> bool) (e : jevent) : bool :=
+  match final_of e with Some a => p a | None => false end.
+(* a finished setup script whose result satisfies p *)
+Definition script_where (p : jresult -> bool) (e : jevent) : bool :=
+  match e with JScriptFinished _ r _ _ => p r | _ => false end.
+(* a finished test that needed more than one attempt *)
+Definition retried (e : jevent) : bool :=
+  match e with JTestFinished _ _ _ (_ :: _) _ _ => true | _ => false end.
+Definition is_skipped_event (e : jevent) : bool :=
+  match e with JTestSkipped => true | _ => false end.
+
+Definition r_any (_ : jresult) : bool := true.
+Definition r_fail (r : jresult) : bool := match r with JFail _ _ => true | _ => false end.
+Definition r_exec (r : jresult) : bool := match r with JExecFail => true | _ => false end.
+Definition r_timeout (r : jresult) : bool := match r with JTimeout => true | _ => false end.
+Definition r_leak (r : jresult) : bool := match r with JLeak => true | _ => false end.
+Definition on_res (p : jresult -> bool) (a : jattempt) : bool := p (ja_res a).
+
+(* what one event contributes, counter by counter *)
+Definition delta_spec (e : jevent) : stats :=
+  mk_stats 0 (b2n (test_where (on_res r_any) e))
+           0 (b2n (script_where r_any e))
+           (b2n (script_where jis_success e)) (b2n (script_where r_fail e))
+           (b2n (script_where r_exec e)) (b2n (script_where r_timeout e))
+           (b2n (test_where (on_res jis_success) e))
+           (b2n (test_where (fun a => jis_success (ja_res a) && ja_slow a) e))
+           (b2n (test_where (on_res jis_success) e && retried e))
+           (b2n (test_where (on_res r_fail) e))
+           (b2n (test_where (fun a => r_fail (ja_res a) && ja_slow a) e))
+           (b2n (test_where (on_res r_timeout) e))
+           (b2n (test_where (on_res r_leak) e))
+           (b2n (test_where (on_res r_exec) e))
+           (b2n (is_skipped_event e)).
+
+(* the statistics record made of the tallies: every counter is the number of events of one kind *)
+Definition tally_stats (n : N) (evs : list jevent) : stats :=
+  let T p := count_if (test_where p) evs in
+  let S p := count_if (script_where p) evs in
+  mk_stats n (T (on_res r_any))
+           0 (S r_any) (S jis_success) (S r_fail) (S r_exec) (S r_timeout)
+           (T (on_res jis_success))
+           (T (fun a => jis_success (ja_res a) && ja_slow a))
+           (count_if (fun e => test_where (on_res jis_success) e && retried e) evs)
+           (T (on_res r_fail))
+           (T (fun a => r_fail (ja_res a) && ja_slow a))
+           (T (on_res r_timeout)) (T (on_res r_leak)) (T (on_res r_exec))
+           (count_if is_skipped_event evs).
+
+Lemma event_delta_spec e : event_delta e = delta_spec e.
 Proof.
-  intros Hatt Hrep evs.
-  assert (Hf : final = run_stats n evs).
-  { rewrite (attached_spec _ _ Hatt l JOther final [] eq_refl).
-    unfold run_stats. rewrite stats_fold_app. reflexivity. }
-  subst final.
-  destruct (one_testcase_per_finished evs rep n Hrep) as (_ & _ & _ & _ & Ht & Hs & _).
-  pose proof (agree_failed evs rep n Hrep) as Hfail.
-  pose proof (agree_failed_scripts evs rep n Hrep) as Hfs.
-  pose proof (agree_flaky evs rep n Hrep) as Hfl.
-  rewrite cnt_test_cases in Hfail, Hfl. rewrite cnt_script_cases in Hfs.
-  repeat split; try assumption; try apply stats_partition_lemma.
-  - intros Hno. unfold has_failures in Hno. apply orb_false_iff in Hno as [H1 H2].
-    apply N.ltb_ge in H1, H2.
-    assert (E : count_if is_nonsuccess (all_cases rep)
-                = count_if is_nonsuccess (test_cases rep) + count_if is_nonsuccess (script_cases rep)).
-    { clear. unfold all_cases, test_cases, script_cases.
-      induction rep as [|[k tcs] r IH]; cbn [flat_map filter fst snd]; [reflexivity|].
-      rewrite count_if_app, IH. destruct (is_test_key k); cbn [negb flat_map snd];
-        rewrite ?count_if_app; lia. }
-    rewrite E. lia.
-  - intros Hz.
-    assert (E : count_if is_nonsuccess (all_cases rep)
-                = count_if is_nonsuccess (test_cases rep) + count_if is_nonsuccess (script_cases rep)).
-    { clear. unfold all_cases, test_cases, script_cases.
-      induction rep as [|[k tcs] r IH]; cbn [flat_map filter fst snd]; [reflexivity|].
-      rewrite count_if_app, IH. destruct (is_test_key k); cbn [negb flat_map snd];
-        rewrite ?count_if_app; lia. }
-    unfold has_failures. apply orb_false_iff. split; apply N.ltb_ge; lia.
+  destruct e as [bin name first rest ss sf|id res ss sf| |]; unfold delta_spec;
+    cbn [event_delta test_where script_where final_of retried is_skipped_event].
+  - unfold test_finished_delta, on_res. generalize (last_attempt first rest). intros [res slow].
+    cbn [ja_res ja_slow]. destruct res, slow, rest; reflexivity.
+  - destruct res; reflexivity.
+  - reflexivity.
+  - reflexivity.
+Qed.
+
+Lemma count_if_cons {A} (f : A -> bool) x l : count_if f (x :: l) = b2n (f x) + count_if f l.
+Proof. unfold count_if. cbn [filter]. destruct (f x); cbn [length b2n]; lia. Qed.
+
+Lemma sumN_b2n_count {A} (p : A -> bool) l : sumN (map (fun e => b2n (p e)) l) = count_if p l.
+Proof.
+  induction l as [|x l IH]; [reflexivity|]. cbn [map sumN]. rewrite IH, count_if_cons. reflexivity.
+Qed.
+
+Lemma count_if_false {A} (l : list A) : count_if (fun _ => false) l = 0.
+Proof. induction l as [|x l IH]; [reflexivity|]. rewrite count_if_cons, IH. reflexivity. Qed.
+
+(* one counter: a linear projection X whose value on every event's delta is the indicator of p
+   counts the events satisfying p *)
+Lemma field_tally (X : stats -> N) (p : jevent -> bool) :
+  linear X -> (forall e, X (delta_spec e) = b2n (p e)) ->
+  forall n evs, X (run_stats n evs) = X (initial_stats n) + count_if p evs.
+Proof.
+  intros HX Hp n evs. unfold run_stats. rewrite (linear_fold _ HX). f_equal.
+  rewrite <- sumN_b2n_count. f_equal. clear - Hp.
+  induction evs as [|e evs IH]; [reflexivity|]. cbn [map]. rewrite IH, event_delta_spec, Hp. reflexivity.
+Qed.
+
+Lemma stats_ext a b :
+  initial_run_count a = initial_run_count b -> finished_count a = finished_count b ->
+  ss_initial_count a = ss_initial_count b -> ss_finished_count a = ss_finished_count b ->
+  ss_passed a = ss_passed b -> ss_failed a = ss_failed b ->
+  ss_exec_failed a = ss_exec_failed b -> ss_timed_out a = ss_timed_out b ->
+  passed a = passed b -> passed_slow a = passed_slow b -> flaky a = flaky b ->
+  failed a = failed b -> failed_slow a = failed_slow b -> timed_out a = timed_out b ->
+  leaky a = leaky b -> exec_failed a = exec_failed b -> skipped a = skipped b -> a = b.
+Proof. destruct a, b; cbn. intros; subst; reflexivity. Qed.
+
+(* the statistics the dispatcher accumulates event by event (RunStats::on_test_finished, ...)
+   ARE the tallies of the final results, counter by counter, for any stream *)
+Lemma run_stats_is_tally n evs : run_stats n evs = tally_stats n evs.
+Proof.
+  apply stats_ext; unfold tally_stats;
+    cbn [initial_run_count finished_count ss_initial_count ss_finished_count ss_passed ss_failed
+         ss_exec_failed ss_timed_out passed passed_slow flaky failed failed_slow timed_out leaky
+         exec_failed skipped].
+  1: rewrite (field_tally initial_run_count (fun _ => false));
+       [rewrite count_if_false; cbn; lia|intros ? ?; reflexivity|intros e; reflexivity].
+  2: rewrite (field_tally ss_initial_count (fun _ => false));
+       [rewrite count_if_false; reflexivity|intros ? ?; reflexivity|intros e; reflexivity].
+  all: match goal with
+       | |- ?X (run_stats _ _) = count_if ?p _ =>
+           rewrite (field_tally X p); [reflexivity|intros ? ?; reflexivity|intros e; reflexivity]
+       end.
+Qed.
+
+(* ----------------------------------------------------------------- the report's attributes *)
+
+(* an event that yields a testcase; one that yields a <failure> / an <error> element: the test
+   (script) ultimately failed, and its FIRST attempt's result maps to that element *)
+Definition ev_case (e : jevent) : bool :=
+  match e with JTestFinished _ _ _ _ _ _ | JScriptFinished _ _ _ _ => true | _ => false end.
+Definition kind_is (r : jresult) (kd : jkind) : bool :=
+  match non_success_kind r, kd with
+  | Some KFailure, KFailure | Some KError, KError => true
+  | _, _ => false
+  end.
+Definition ev_kind (kd : jkind) (e : jevent) : bool :=
+  match e with
+  | JTestFinished _ _ f r _ _ => negb (jis_success (ja_res (last_attempt f r))) && kind_is (ja_res f) kd
+  | JScriptFinished _ res _ _ => negb (jis_success res) && kind_is res kd
+  | _ => false
+  end.
+
+Lemma cnt_tally g f p :
+  (forall e, match convert e with
+             | CCase k tc => g k && f tc = p e
+             | CIgnored => p e = false
+             | CPanic => True
+             end) ->
+  forall evs st rep, junit_fold st evs = Some rep -> cnt g f rep = cnt g f st + count_if p evs.
+Proof.
+  intros Hstep. induction evs as [|e evs IH]; intros st rep H; cbn [junit_fold] in H.
+  - injection H as <-. unfold count_if; cbn. lia.
+  - rewrite count_if_cons. specialize (Hstep e). destruct (convert e) as [| |k tc]; [|discriminate|].
+    + rewrite (IH _ _ H), Hstep. cbn [b2n]. lia.
+    + rewrite (IH _ _ H), cnt_add_case, Hstep. lia.
+Qed.
+
+Lemma cnt_all_cases f rep : cnt ktrue f rep = count_if f (all_cases rep).
+Proof.
+  induction rep as [|[k tcs] r IH]; [reflexivity|].
+  rewrite cnt_cons, IH. unfold all_cases; cbn [flat_map snd ktrue]. now rewrite count_if_app.
+Qed.
+
+Lemma convert_test_kind bin name first rest ss sf k tc kd :
+  convert_test bin name first rest ss sf = CCase k tc ->
+  has_kind kd tc = negb (jis_success (ja_res (last_attempt first rest))) && kind_is (ja_res first) kd.
+Proof.
+  unfold convert_test, describe, kind_is.
+  destruct (jis_success (ja_res (last_attempt first rest))) eqn:Es.
+  - destruct rest as [|b rest'].
+    + cbn [mk_reruns]. intros H; injection H as <- <-. destruct kd; reflexivity.
+    + destruct (mk_reruns sf 1 (removelast (first :: b :: rest'))); [|discriminate].
+      intros H; injection H as <- <-. destruct kd; reflexivity.
+  - destruct (non_success_kind (ja_res first)) as [k0|]; [|discriminate].
+    destruct (mk_reruns sf 2 rest); [|discriminate].
+    intros H; injection H as <- <-. destruct k0, kd; reflexivity.
+Qed.
+
+Lemma convert_script_kind id r ss sf k tc kd :
+  convert_script id r ss sf = CCase k tc ->
+  has_kind kd tc = negb (jis_success r) && kind_is r kd.
+Proof.
+  unfold convert_script, kind_is. destruct r; cbn; intros H; injection H as <- <-; destruct kd; reflexivity.
+Qed.
+
+Lemma convert_not_ignored_test bin name first rest ss sf :
+  convert_test bin name first rest ss sf <> CIgnored.
+Proof.
+  unfold convert_test.
+  destruct (match describe first rest with
+            | DSuccess single => _ | DFlaky l p => _ | DFailure a _ r => _ end)
+    as [[[[[kd m] mn] rr] st0]|]; [|discriminate].
+  destruct (mk_reruns sf st0 rr); discriminate.
+Qed.
+
+Lemma report_counts_tally evs rep :
+  junit_report evs = Some rep ->
+  report_counts rep = (count_if ev_case evs,
+                       (count_if (ev_kind KFailure) evs, count_if (ev_kind KError) evs)).
+Proof.
+  intros H. unfold report_counts, suite_counts.
+  rewrite <- (count_if_ttrue (all_cases rep)).
+  change (count_if (fun _ => true) (all_cases rep)) with (count_if ttrue (all_cases rep)).
+  rewrite <- !cnt_all_cases.
+  assert (K : forall f p,
+             (forall bin name first rest ss sf k tc,
+                 convert_test bin name first rest ss sf = CCase k tc ->
+                 f tc = p (JTestFinished bin name first rest ss sf)) ->
+             (forall id r ss sf k tc,
+                 convert_script id r ss sf = CCase k tc -> f tc = p (JScriptFinished id r ss sf)) ->
+             p JTestSkipped = false -> p JOther = false ->
+             cnt ktrue f rep = count_if p evs).
+  { intros f p Ht Hs H1 H2.
+    enough (Hstep : forall e, match convert e with
+                              | CCase k tc => ktrue k && f tc = p e
+                              | CIgnored => p e = false
+                              | CPanic => True
+                              end)
+      by (rewrite (cnt_tally ktrue f p Hstep evs [] rep H); reflexivity).
+    intros e. destruct e; cbn [convert]; try assumption.
+    - destruct (convert_test bin name first rest store_success store_failure) eqn:E; try exact I.
+      + exfalso. exact (convert_not_ignored_test _ _ _ _ _ _ E).
+      + cbn [ktrue andb]. eapply Ht; exact E.
+    - destruct (convert_script id res store_success store_failure) eqn:E; try exact I.
+      + destruct (convert_script_ok id res store_success store_failure) as (tc & E' & _).
+        rewrite E' in E. discriminate.
+      + cbn [ktrue andb]. eapply Hs; exact E. }
+  f_equal; [|f_equal].
+  - apply K; try reflexivity; intros; reflexivity.
+  - apply K; try reflexivity; intros.
+    + eapply convert_test_kind; eassumption.
+    + eapply convert_script_kind; eassumption.
+  - apply K; try reflexivity; intros.
+    + eapply convert_test_kind; eassumption.
+    + eapply convert_script_kind; eassumption.
+Qed.
+
+Lemma nonsuccess_split l :
+  count_if is_nonsuccess l = count_if (has_kind KFailure) l + count_if (has_kind KError) l.
+Proof.
+  induction l as [|tc l IH]; [reflexivity|]. rewrite !count_if_cons, IH.
+  unfold is_nonsuccess, has_kind. destruct (tc_status tc) as [rs|[|] rs]; cbn [b2n]; lia.
+Qed.
+
+Lemma nonsuccess_all rep :
+  count_if is_nonsuccess (all_cases rep)
+  = count_if is_nonsuccess (test_cases rep) + count_if is_nonsuccess (script_cases rep).
+Proof.
+  unfold all_cases, test_cases, script_cases.
+  induction rep as [|[k tcs] r IH]; cbn [flat_map filter fst snd]; [reflexivity|].
+  rewrite count_if_app, IH. destruct (is_test_key k); cbn [negb flat_map snd];
+    rewrite ?count_if_app; lia.
+Qed.
+
+(* C17_consumers_agree: from the event stream alone. The statistics record the dispatcher folds
+   (from which the summary line -- summary_counts -- and the exit status -- exit_code of
+   summarize_final -- are computed), and the tests / failures / errors attributes of the JUnit
+   report the aggregator builds from the same stream, are the same plain tallies of the per-test
+   final results; in particular failures + errors is the number that decides the exit status. *)
+Lemma consumers_agree n evs rep :
+  junit_report evs = Some rep ->
+  let s := run_stats n evs in
+  s = tally_stats n evs
+  /\ report_counts rep = (count_if ev_case evs,
+                          (count_if (ev_kind KFailure) evs, count_if (ev_kind KError) evs))
+  /\ fst (report_counts rep) = finished_count s + ss_finished_count s
+  /\ fst (snd (report_counts rep)) + snd (snd (report_counts rep))
+     = failed_count s + failed_script_count s
+  /\ (exit_code (summarize_final s) = 0 <->
+      fst (snd (report_counts rep)) + snd (snd (report_counts rep)) = 0
+      /\ n <= count_if (test_where (on_res r_any)) evs
+      /\ count_if (test_where (on_res r_any)) evs <> 0).
+Proof.
+  intros Hrep s.
+  pose proof (run_stats_is_tally n evs) as Ht. fold s in Ht.
+  destruct (one_testcase_per_finished evs rep n Hrep) as (_ & _ & _ & _ & Htc & Hsc & _).
+  fold s in Htc, Hsc.
+  destruct (failure_counts_aux evs rep n Hrep) as (Hf & Hfs). fold s in Hf, Hfs.
+  assert (Hfe : fst (snd (report_counts rep)) + snd (snd (report_counts rep))
+                = failed_count s + failed_script_count s).
+  { unfold report_counts, suite_counts. cbn [fst snd].
+    rewrite <- nonsuccess_split, nonsuccess_all, Hf, Hfs. reflexivity. }
+  assert (Hn : fst (report_counts rep) = finished_count s + ss_finished_count s).
+  { unfold report_counts, suite_counts. cbn [fst].
+    rewrite <- Htc, <- Hsc. unfold len, all_cases, test_cases, script_cases. clear.
+    induction rep as [|[k tcs] r IH]; cbn [flat_map filter fst snd]; [reflexivity|].
+    rewrite app_length. destruct (is_test_key k); cbn [negb flat_map snd];
+      rewrite ?app_length; lia. }
+  split; [exact Ht|]. split; [exact (report_counts_tally evs rep Hrep)|].
+  split; [exact Hn|]. split; [exact Hfe|].
+  rewrite Hfe.
+  assert (Hfin : finished_count s = count_if (test_where (on_res r_any)) evs)
+    by (rewrite Ht; reflexivity).
+  assert (Hinit : initial_run_count s = n) by (rewrite Ht; reflexivity).
+  assert (Hssi : ss_initial_count s = 0) by (rewrite Ht; reflexivity).
+  rewrite <- Hfin. unfold summarize_final, exit_code. rewrite Hinit, Hssi.
+  destruct (0 <? failed_script_count s) eqn:E1; [split; [discriminate|lia]|].
+  destruct (ss_finished_count s <? 0) eqn:E2; [lia|].
+  destruct (0 <? failed_count s) eqn:E3; [split; [discriminate|lia]|].
+  destruct (finished_count s <? n) eqn:E4; [split; [discriminate|lia]|].
+  destruct (finished_count s =? 0) eqn:E5; [split; [discriminate|lia]|].
+  split; [lia|reflexivity].
+Qed.
+
+(* ----------------------------------------------------------------- the summary line's tokens *)
+
+Lemma in_single_pair (a b c d : N) : In (c, d) [(a, b)] <-> c = a /\ d = b.
+Proof.
+  cbn [In]. split.
+  - intros [H|[]]. injection H; auto.
+  - intros [-> ->]. left; reflexivity.
+Qed.
+
+Lemma in_tok_if_pos tag n t v : In (t, v) (tok_if_pos tag n) <-> t = tag /\ v = n /\ 0 < v.
+Proof.
+  unfold tok_if_pos. destruct (0 <? n) eqn:E.
+  - rewrite in_single_pair. apply N.ltb_lt in E. intuition (subst; auto).
+  - apply N.ltb_ge in E. cbn [In]. intuition (subst; lia).
+Qed.
+
+(* which (tag, number) tokens the summary line shows, for any statistics *)
+Lemma summary_tokens_spec (s : stats) tag v :
+  In (tag, v) (summary_counts s) <->
+  (tag = 0 /\ v = finished_count s)
+  \/ (tag = 1 /\ v = initial_run_count s /\ finished_count s <> initial_run_count s)
+  \/ (tag = 2 /\ v = passed s)
+  \/ (tag = 3 /\ v = passed_slow s /\ 0 < v)
+  \/ (tag = 4 /\ v = flaky s /\ 0 < v)
+  \/ (tag = 5 /\ v = leaky s /\ 0 < v)
+  \/ (tag = 6 /\ v = failed s /\ 0 < v)
+  \/ (tag = 7 /\ v = exec_failed s /\ 0 < v)
+  \/ (tag = 8 /\ v = timed_out s /\ 0 < v)
+  \/ (tag = 9 /\ v = skipped s).
+Proof.
+  unfold summary_counts. rewrite !in_app_iff, !in_tok_if_pos, !in_single_pair.
+  assert (H1 : In (tag, v) (if finished_count s =? initial_run_count s then []
+                            else [(1, initial_run_count s)])
+               <-> tag = 1 /\ v = initial_run_count s /\ finished_count s <> initial_run_count s).
+  { destruct (finished_count s =? initial_run_count s) eqn:E.
+    - apply N.eqb_eq in E. cbn [In]. intuition.
+    - apply N.eqb_neq in E. rewrite in_single_pair. intuition. }
+  rewrite H1. tauto.
+Qed.
+
+(* C17_summary_tokens: every number on the summary line is a tally of the per-test final results
+   of the stream ("F[/I] tests run: P passed (a slow, b flaky, c leaky), X failed, Y exec failed,
+   Z timed out, S skipped"; tags as in Model/Junit.v), and a token is shown exactly when stated *)
+Lemma summary_tokens_are_tallies n evs tag v :
+  let T p := count_if (test_where p) evs in
+  In (tag, v) (summary_counts (run_stats n evs)) <->
+  (tag = 0 /\ v = T (on_res r_any))
+  \/ (tag = 1 /\ v = n /\ T (on_res r_any) <> n)
+  \/ (tag = 2 /\ v = T (on_res jis_success))
+  \/ (tag = 3 /\ v = T (fun a => jis_success (ja_res a) && ja_slow a) /\ 0 < v)
+  \/ (tag = 4 /\ v = count_if (fun e => test_where (on_res jis_success) e && retried e) evs /\ 0 < v)
+  \/ (tag = 5 /\ v = T (on_res r_leak) /\ 0 < v)
+  \/ (tag = 6 /\ v = T (on_res r_fail) /\ 0 < v)
+  \/ (tag = 7 /\ v = T (on_res r_exec) /\ 0 < v)
+  \/ (tag = 8 /\ v = T (on_res r_timeout) /\ 0 < v)
+  \/ (tag = 9 /\ v = count_if is_skipped_event evs).
+Proof.
+  cbv zeta. rewrite run_stats_is_tally. exact (summary_tokens_spec (tally_stats n evs) tag v).
+Qed.
+
+(* every snapshot an event carries is the tally of the stream up to and including that event,
+   given the decidable predicate [attached] (validated on every real tap; proved of the
+   dispatcher model for all histories in Proofs/JunitLink.v) *)
+Lemma snapshots_are_tallies n l :
+  attached (initial_stats n) l = true ->
+  forall pre e snap post, l = pre ++ (e, Some snap) :: post ->
+    snap = tally_stats n (map fst pre ++ [e]).
+Proof.
+  intros H pre e snap post E. rewrite <- run_stats_is_tally. unfold run_stats.
+  eapply attached_spec; eassumption.
 Qed.
 
 (* every well-formed stream yields a report (the aggregator does not panic) *)
@@ -869,29 +1204,245 @@ Lemma wf_report_exists evs :
   forallb wf_event evs = true -> exists rep, junit_report evs = Some rep.
 Proof. apply junit_fold_total. Qed.
 
-(* ================================================================= XmlString vs XML 1.0 Char *)
+(* ================================================================= stored text vs XML 1.0 Char *)
 
-Lemma xmlstring_not_wellformed_witness :
+(* ---- the escape stripper only deletes, except that it may write U+FFFD *)
+
+Lemma feed_out bs : forall st st' o,
+  feed st bs = (st', o) -> forall x, In x o -> x = 65533 \/ (x = 10 /\ In 10 bs).
+Proof.
+  induction bs as [|b r IH]; intros st st' o H x Hx; cbn [feed] in H.
+  - injection H as <- <-. destruct Hx.
+  - destruct (match st with
+              | VGround => (VGround, if b <=? 159 then [] else [65533])
+              | _ => let '(st'0, ex) := byte_step st b in
+                     (st'0, if ex && (b =? 10) then [10] else [])
+              end) as [st1 o1] eqn:E1.
+    destruct (feed st1 r) as [st2 o2] eqn:E2. injection H as <- <-.
+    apply in_app_or in Hx as [Hx|Hx].
+    + assert (G : x = 65533 \/ (x = 10 /\ b = 10)).
+      { destruct st;
+          try (destruct (byte_step _ b) as [s0 ex]; injection E1 as <- <-;
+               destruct (ex && (b =? 10)) eqn:Eb;
+               [apply andb_true_iff in Eb as [_ Eb]; apply N.eqb_eq in Eb;
+                destruct Hx as [<-|[]]; right; auto|destruct Hx]).
+        injection E1 as <- <-. destruct (b <=? 159); [destruct Hx|].
+        destruct Hx as [<-|[]]. left; reflexivity. }
+      destruct G as [G|[G1 G2]]; [left; exact G|right; split; [exact G1|left; exact G2]].
+    + destruct (IH _ _ _ E2 x Hx) as [G|[G1 G2]]; [left; exact G|right; split; [exact G1|right; exact G2]].
+Qed.
+
+Lemma utf8_char_lf c : In 10 (utf8_char c) -> c = 10.
+Proof.
+  unfold utf8_char.
+  destruct (c <? 128) eqn:E1; [intros [H|[]]; exact H|].
+  destruct (c <? 2048); [cbn [In]; lia|].
+  destruct (c <? 65536); cbn [In]; lia.
+Qed.
+
+Lemma ansi_strip_keeps_lf : ansi_strip_keeps 10 = true.
+Proof. reflexivity. Qed.
+
+Lemma vte_char_out st c st' o :
+  vte_char st c = (st', o) ->
+  forall x, In x o -> x = 65533 \/ (x = c /\ ansi_strip_keeps c = true).
+Proof.
+  intros H x Hx.
+  assert (F : feed st (utf8_char c) = (st', o) -> x = 65533 \/ (x = c /\ ansi_strip_keeps c = true)).
+  { intros Hf. destruct (feed_out _ _ _ _ Hf x Hx) as [G|[G1 G2]]; [left; exact G|].
+    apply utf8_char_lf in G2. subst. right; split; reflexivity. }
+  destruct st; cbn [vte_char] in H; try (apply F; exact H).
+  destruct (c =? 27); [injection H as <- <-; destruct Hx|].
+  injection H as <- <-. destruct (ansi_strip_keeps c) eqn:Ek; [|destruct Hx].
+  destruct Hx as [<-|[]]. right; split; reflexivity.
+Qed.
+
+Lemma ansi_strip_from_out s : forall st x,
+  In x (ansi_strip_from st s) -> x = 65533 \/ (In x s /\ ansi_strip_keeps x = true).
+Proof.
+  induction s as [|c r IH]; intros st x Hx; cbn [ansi_strip_from] in Hx; [destruct Hx|].
+  destruct (vte_char st c) as [st' o] eqn:E. apply in_app_or in Hx as [Hx|Hx].
+  - destruct (vte_char_out _ _ _ _ E x Hx) as [G|[-> G]]; [left; exact G|].
+    right; split; [left; reflexivity|exact G].
+  - destruct (IH _ _ Hx) as [G|[G1 G2]]; [left; exact G|right; split; [right; exact G1|exact G2]].
+Qed.
+
+Lemma ansi_strip_keeps_fffd : ansi_strip_keeps 65533 = true.
+Proof. reflexivity. Qed.
+
+(* XmlString::new: every character of the result is U+FFFD or a character of the input, and is
+   one that both stages keep *)
+Lemma xmlstring_new_out s x :
+  In x (xmlstring_new s) -> (x = 65533 \/ In x s) /\ xmlstring_keeps x = true.
+Proof.
+  unfold xmlstring_new, ansi_strip. intros H. apply filter_In in H as [H1 H2].
+  unfold xmlstring_keeps. rewrite H2, andb_true_r.
+  destruct (ansi_strip_from_out _ _ _ H1) as [->|[G1 G2]].
+  - split; [left; reflexivity|reflexivity].
+  - split; [right; exact G1|exact G2].
+Qed.
+
+Lemma known_nonchar_fffd : known_nonchar 65533 = false.
+Proof. reflexivity. Qed.
+
+Lemma existsb_false_In {A} (f : A -> bool) l x : existsb f l = false -> In x l -> f x = false.
+Proof.
+  intros H Hx. destruct (f x) eqn:E; [|reflexivity].
+  assert (existsb f l = true) by (apply existsb_exists; exists x; auto). congruence.
+Qed.
+
+(* the repaired pipeline *)
+Lemma stored_text_out s x :
+  In x (stored_text s) -> (x = 65533 \/ In x s) /\ nextest_keeps x = true.
+Proof.
+  unfold stored_text, xml_safe, nextest_keeps.
+  destruct (existsb known_nonchar (xmlstring_new s)) eqn:E; intros H.
+  - apply xmlstring_new_out in H as [[->|H1] H2].
+    + split; [left; reflexivity|reflexivity].
+    + apply filter_In in H1 as [H1 H3]. apply xmlstring_new_out in H1 as [H1 _].
+      rewrite H2, H3. split; [exact H1|reflexivity].
+  - pose proof (existsb_false_In _ _ _ E H) as Hn. apply xmlstring_new_out in H as [H1 H2].
+    rewrite H2, Hn. split; [exact H1|reflexivity].
+Qed.
+
+(* per character: what the repaired pipeline keeps is an XML 1.0 Char *)
+Lemma nextest_keeps_xml_char c : is_scalar c = true -> nextest_keeps c = true -> xml_char c = true.
+Proof.
+  unfold is_scalar, nextest_keeps, xmlstring_keeps, ansi_strip_keeps, xmlstring_filter_keeps,
+    known_nonchar, in_rng, xml_char.
+  lia.
+Qed.
+
+(* C17_stored_text_xml_chars: for EVERY captured string (any length, any mix of escape
+   sequences, controls, non-characters) every character of the stored text is an XML 1.0 Char *)
+Lemma stored_text_xml_chars s :
+  forallb is_scalar s = true -> forallb xml_char (stored_text s) = true.
+Proof.
+  intros Hs. apply forallb_forall. intros x Hx.
+  destruct (stored_text_out _ _ Hx) as [[->|Hin] Hk].
+  - reflexivity.
+  - apply nextest_keeps_xml_char; [|exact Hk].
+    rewrite forallb_forall in Hs. apply Hs, Hin.
+Qed.
+
+(* ... and none of them is one of the two non-characters, whatever the input is made of *)
+Lemma stored_text_no_nonchar s : existsb known_nonchar (stored_text s) = false.
+Proof.
+  destruct (existsb known_nonchar (stored_text s)) eqn:E; [|reflexivity].
+  apply existsb_exists in E as (x & Hx & Hn). apply stored_text_out in Hx as [_ Hk].
+  unfold nextest_keeps in Hk. rewrite Hn in Hk. rewrite andb_false_r in Hk. discriminate.
+Qed.
+
+(* ---- text without ESC: the pipeline is the per-character filter *)
+
+Lemma ansi_strip_esc_free s :
+  forallb (fun c => negb (c =? 27)) s = true -> ansi_strip s = filter ansi_strip_keeps s.
+Proof.
+  unfold ansi_strip. induction s as [|c r IH]; intros H; [reflexivity|].
+  cbn [forallb] in H. apply andb_true_iff in H as [Hc Hr].
+  cbn [ansi_strip_from vte_char filter]. apply negb_true_iff in Hc. rewrite Hc.
+  rewrite (IH Hr). destruct (ansi_strip_keeps c); reflexivity.
+Qed.
+
+Lemma filter_filter {A} (f g : A -> bool) l :
+  filter f (filter g l) = filter (fun x => g x && f x) l.
+Proof.
+  induction l as [|x l IH]; [reflexivity|]. cbn [filter].
+  destruct (g x); cbn [filter andb]; [destruct (f x)|]; now rewrite IH.
+Qed.
+
+Lemma filter_ext_in {A} (f g : A -> bool) l :
+  (forall x, In x l -> f x = g x) -> filter f l = filter g l.
+Proof.
+  induction l as [|x l IH]; intros H; [reflexivity|]. cbn [filter].
+  rewrite (H x (or_introl eq_refl)), IH; [reflexivity|]. intros y Hy. apply H. right; exact Hy.
+Qed.
+
+Lemma xmlstring_new_esc_free s :
+  forallb (fun c => negb (c =? 27)) s = true -> xmlstring_new s = filter xmlstring_keeps s.
+Proof.
+  intros H. unfold xmlstring_new. rewrite (ansi_strip_esc_free _ H), filter_filter. reflexivity.
+Qed.
+
+Lemma xmlstring_keeps_not_esc c : xmlstring_keeps c = true -> negb (c =? 27) = true.
+Proof. unfold xmlstring_keeps, ansi_strip_keeps, xmlstring_filter_keeps, in_rng. lia. Qed.
+
+Lemma stored_text_esc_free s :
+  forallb (fun c => negb (c =? 27)) s = true -> stored_text s = filter nextest_keeps s.
+Proof.
+  intros H. unfold stored_text, xml_safe. rewrite (xmlstring_new_esc_free _ H).
+  destruct (existsb known_nonchar (filter xmlstring_keeps s)) eqn:E.
+  - rewrite xmlstring_new_esc_free.
+    + rewrite !filter_filter. apply filter_ext_in. intros x _. unfold nextest_keeps.
+      destruct (xmlstring_keeps x), (known_nonchar x); reflexivity.
+    + apply forallb_forall. intros x Hx. apply filter_In in Hx as [Hx _].
+      apply filter_In in Hx as [_ Hx]. apply xmlstring_keeps_not_esc, Hx.
+  - rewrite <- (filter_filter (fun c => negb (known_nonchar c)) xmlstring_keeps).
+    symmetry. transitivity (filter (fun _ => true) (filter xmlstring_keeps s)).
+    + apply filter_ext_in. intros x Hx. rewrite (existsb_false_In _ _ _ E Hx). reflexivity.
+    + clear. induction (filter xmlstring_keeps s) as [|x l IH]; [reflexivity|].
+      cbn [filter]. now rewrite IH.
+Qed.
+
+(* the second XmlString::new of xml_safe is the identity: stored_text is the first one followed
+   by the removal of the two non-characters *)
+Lemma stored_text_is_filter s :
+  stored_text s = filter (fun c => negb (known_nonchar c)) (xmlstring_new s).
+Proof.
+  unfold stored_text, xml_safe.
+  set (x := xmlstring_new s).
+  assert (Hx : forall c, In c x -> xmlstring_keeps c = true).
+  { intros c Hc. apply (xmlstring_new_out s c Hc). }
+  destruct (existsb known_nonchar x) eqn:E.
+  - rewrite xmlstring_new_esc_free.
+    + rewrite filter_filter.
+      transitivity (filter (fun c => negb (known_nonchar c) && true) x).
+      * apply filter_ext_in. intros c Hc. rewrite (Hx c Hc). reflexivity.
+      * apply filter_ext_in. intros c _. apply andb_true_r.
+    + apply forallb_forall. intros c Hc. apply filter_In in Hc as [Hc _].
+      apply xmlstring_keeps_not_esc, Hx, Hc.
+  - symmetry. transitivity (filter (fun _ => true) x).
+    + apply filter_ext_in. intros c Hc. rewrite (existsb_false_In _ _ _ E Hc). reflexivity.
+    + clear. induction x as [|c l IH]; [reflexivity|]. cbn [filter]. now rewrite IH.
+Qed.
+
+(* ---- regression witnesses: quick-junit's XmlString::new ALONE (what nextest relied on before
+   a19c0df) keeps U+FFFF, which is not an XML 1.0 Char *)
+Lemma xmlstring_alone_not_wellformed_witness :
   exists c, is_scalar c = true /\ xmlstring_keeps c = true /\ xml_char c = false.
 Proof. exists 65535. vm_compute. auto. Qed.
+
+Lemma xmlstring_alone_not_wellformed_text :
+  exists s, forallb is_scalar s = true /\ forallb xml_char (xmlstring_new s) = false
+            /\ forallb xml_char (stored_text s) = true.
+Proof. exists [65; 65535; 66; 65534]. vm_compute. auto. Qed.
 
 Lemma xmlstring_outside_known c :
   is_scalar c = true -> known_nonchar c = false -> xmlstring_keeps c = true -> xml_char c = true.
 Proof.
-  unfold is_scalar, known_nonchar, xmlstring_keeps, ansi_strip_keeps, xmlstring_filter_keeps, xml_char.
+  intros H1 H2 H3. apply nextest_keeps_xml_char; [exact H1|].
+  unfold nextest_keeps. rewrite H2, H3. reflexivity.
+Qed.
+
+(* what survives outside escape sequences: LF, and everything from U+0020 up except the C1
+   controls and the two non-characters *)
+Lemma nextest_keeps_spec c :
+  nextest_keeps c = true <->
+  (c = 10 \/ (32 <= c /\ ~ (128 <= c <= 159) /\ c <> 65534 /\ c <> 65535)).
+Proof.
+  unfold nextest_keeps, xmlstring_keeps, ansi_strip_keeps, xmlstring_filter_keeps, known_nonchar,
+    in_rng.
   lia.
 Qed.
 
-(* what survives: everything from U+0020 up, and LF *)
-Lemma xmlstring_keeps_spec c : xmlstring_keeps c = true <-> (32 <= c \/ c = 10).
-Proof. unfold xmlstring_keeps, ansi_strip_keeps, xmlstring_filter_keeps. lia. Qed.
-
-(* the legal XML characters that are nevertheless removed: TAB and CR (dropped by the escape
-   stripper; the replace() filter would have kept them) *)
-Lemma xmlstring_lost_chars c :
-  (xml_char c = true /\ xmlstring_keeps c = false) <-> (c = 9 \/ c = 13).
+(* the legal XML characters that are nevertheless removed: TAB, CR and the C1 controls (all
+   dropped by the escape stripper; the replace() filter would have kept them) *)
+Lemma nextest_lost_chars c :
+  (xml_char c = true /\ nextest_keeps c = false) <-> (c = 9 \/ c = 13 \/ 128 <= c <= 159).
 Proof.
-  unfold xmlstring_keeps, ansi_strip_keeps, xmlstring_filter_keeps, xml_char. lia.
+  unfold nextest_keeps, xmlstring_keeps, ansi_strip_keeps, xmlstring_filter_keeps, known_nonchar,
+    in_rng, xml_char.
+  lia.
 Qed.
 
 Lemma finished_counts_events n evs :
